@@ -345,6 +345,30 @@ class Check:
         return path
 
     def main(self, argv=None):
+        """run the check; a crash of the harness itself (e.g. the implementation did something the runner or the
+        driver cannot even represent) is reported as a broken correspondence, not as a silent non-zero exit"""
+        try:
+            return self._main(argv)
+        except SystemExit:
+            raise
+        except BaseException as ex:      # noqa: B902
+            import traceback
+            tb = traceback.format_exc()
+            sys.stderr.write(tb)
+            self.seed = getattr(self, 'seed', 0)
+            self.tier = getattr(self, 'tier', 'quick')
+            path = self.write_replay('no-failing-input-found', None,
+                                     {'no_longer_checks': f'correspondence corr:{self.ident}: the harness could not evaluate the implementation ({type(ex).__name__}: {str(ex)[:300]})',
+                                      'traceback': tb[-3000:]})
+            try:
+                b = Build(); b.obligations = 1
+                self.write_evidence(b, {'evaluations': 0, 'disagreements': 0, 'impl_failures': 0, 'nontrivial': set(), 'samples': [], 'hist': {}, 'extra': {'harness_exception': repr(ex)[:300]}}, 0.0, 1)
+            except Exception:
+                pass
+            print(f'VIOLATION property={self.ident} replay={path} no-failing-input-found')
+            return 1
+
+    def _main(self, argv=None):
         ap = argparse.ArgumentParser()
         ap.add_argument("--tier", default=os.environ.get("VERIF_TIER", "quick"))
         ap.add_argument("--replay")
